@@ -43,10 +43,15 @@ RULE = ('two streams. (a) schemas: generated well-formed schemas (references inc
         'temporary rules/patterns, multi-set constraints, user functions, signing DAGs) and the same schemas with ONE static '
         'error injected (undefined/temporary rule referenced in a name or as signer, reference cycle, signing cycle, '
         'constraint on / option or argument naming a pattern that occurs nowhere, temporary pattern as option/argument) at a '
-        'chosen position (thorough: every position); (b) models: every kind of single-field corruption of the compiled '
+        'chosen position (thorough: every position; quick: additionally two kinds per schema placed in a definition of a redefined rule '
+        'that is not its last one; three-rule reference / signing cycles; a constraint on a temporary that only another rule writes), '
+        'plus 70 more well-formed schemas for the positive clause; (b) models: every kind of single-field corruption of the compiled '
         'binary model (version, start id, pattern count, node id, parent incl. root and root children, edge destination, '
         'edge value/tag, dropped edges/constraints/options/nodes, option shape, user-function id, signer lists, swapped '
-        'nodes), re-encoded with the real encoder and loaded with Checker.load, then step-capped match/check on names. '
+        'nodes, an extra unreachable node, versions around the one version binary-format.rst describes - the oracle takes the '
+        'recognised version from the document, not from binary.py; quick: one structural corruption in every kind of node: root, leaf, '
+        'only pattern edges, only value edges, both), re-encoded with the real encoder - then optionally truncated at an element '
+        'boundary / cut / extended by unknown, critical, duplicate or empty elements - and loaded with Checker.load, then step-capped match/check on names. '
         'non-trivial = an injected error, or a corrupted model; distinct = distinct cases. '
         'Model side of stream (a): schema AST -> Lean compiler model -> Lean loader model; compared with the real compile_lvs / Checker: '
         'SemanticError or node pool (+ symbol table), and the loader verdict')
@@ -63,7 +68,7 @@ def injections(schema):
 
     def put(kind, i, r2, extra=None):
         rs = rules[:i] + [r2] + rules[i + 1:] + (extra or [])
-        out.append((kind, {'rules': rs}))
+        out.append((kind, {'rules': rs}, i))
     real = [r['id'] for r in rules if not L.is_temp(r['id'])]
     for i, r in enumerate(rules):
         for k in range(len(r['name']) + 1):
@@ -85,6 +90,9 @@ def injections(schema):
                 return dict(r, cons=cs)
             put('cons-unknown-pat', i, with_term({'pat': 'nopat', 'opts': [['lit', 'a']]}))
             put('cons-unknown-temp', i, with_term({'pat': '_nope', 'opts': [['lit', 'a']]}))
+            # a temporary pattern that ANOTHER rule writes (temporaries are local to the definition that writes them)
+            put('cons-unknown-temp', i, with_term({'pat': '_q', 'opts': [['lit', 'a']]}),
+                [{'id': '#xq', 'name': [['pat', '_q'], ['lit', 'a']], 'cons': [[{'pat': '_q', 'opts': [['lit', 'a']]}]], 'sign': []}])
             if pats:
                 put('opt-unknown-pat', i, with_term({'pat': pats[0], 'opts': [['lit', 'a'], ['pat', 'nopat']]}))
                 put('opt-unknown-pat', i, with_term({'pat': pats[0], 'opts': [['fn', '$eq', [['pat', 'nopat']]]]}))
@@ -98,14 +106,65 @@ def injections(schema):
                     put('sign-cycle', j, dict(q, sign=q['sign'] + [r['id']]))
                 if ['ref', q['id']] in r['name']:
                     put('ref-cycle', j, dict(q, name=q['name'] + [['ref', r['id']]]))
+                # three-rule cycles: r -> q -> t (-> r)
+                for k, t in enumerate(rules):
+                    if k in (i, j) or L.is_temp(t['id']) or t['id'] in (r['id'], q['id']):
+                        continue
+                    if q['id'] in r['sign'] and t['id'] in q['sign']:
+                        put('sign-cycle', k, dict(t, sign=t['sign'] + [r['id']]))
+                    if ['ref', q['id']] in r['name'] and ['ref', t['id']] in q['name']:
+                        put('ref-cycle', k, dict(t, name=[['ref', r['id']]] + t['name']))
     return out
 
 
+def redefined_targets(schema):
+    """indices of the definitions of rules defined more than once that are not the last definition in the text"""
+    ids = [r['id'] for r in schema['rules']]
+    return [i for i, rid in enumerate(ids) if not L.is_temp(rid) and rid in ids[i + 1:]]
+
+
 # ------------------------------------------------------------------------------- model corruption
+DOC_VERSION = 0x00011000        # docs/src/lvs/binary-format.rst: "This page describes version ``0x00011000``"
+
+
+_doc_version = []
+
+
+def doc_version():
+    """the one version the format document describes ("the application should only accept the model if the version
+    number is recognized"): read from the document, never from binary.py"""
+    if not _doc_version:
+        import os, re, lib
+        _doc_version.append(DOC_VERSION)
+        for root in ('/repo', lib.REPO):
+            try:
+                m = re.search(r'describes version ``(0x[0-9a-fA-F]+)``', open(os.path.join(root, 'docs/src/lvs/binary-format.rst')).read())
+                if m:
+                    _doc_version[0] = int(m.group(1), 16)
+            except OSError:
+                pass
+    return _doc_version[0]
+
+
+def node_class(m, i):
+    nd = m.nodes[i]
+    if i == m.start_id:
+        return 'root'
+    if not nd.v_edges and not nd.p_edges:
+        return 'leaf'
+    return 'ponly' if not nd.v_edges else 'vonly' if not nd.p_edges else 'mixed'
+
+
 def mutations(m):
     """descriptors of single-field corruptions of a compiled model"""
     n = len(m.nodes)
+    dv = doc_version()
     muts = [['version', None], ['version', m.version + 1], ['version', m.version - 1], ['version', 0],
+            ['version', dv + 1], ['version', dv - 1], ['version', dv - 0x1000], ['version', dv + 0x1000], ['version', 0xffffffff],
+            ['add_node', n, None], ['add_node', n, 0], ['add_node', 0, None], ['add_node', None, None], ['add_node', n + 1, n],
+            ['wire', 'drop_last', 1], ['wire', 'drop_last', len(m.symbols or []) + 1], ['wire', 'cut', 1], ['wire', 'cut', 3],
+            ['wire', 'append', 'fd03e800'], ['wire', 'append', '6a00'], ['wire', 'append', '6b00'], ['wire', 'append', '6300'],
+            ['wire', 'append', '610400011000'], ['wire', 'append', '63'],
             ['start', n], ['start', n + 3], ['cnt', 0], ['cnt', m.named_pattern_cnt + 5], ['start', None], ['cnt', None]]
     if n > 1:
         muts += [['start', 1], ['start', n - 1], ['drop_node', n - 1], ['drop_node', 0], ['swap_nodes', 0, n - 1]]
@@ -150,7 +209,12 @@ def mutations(m):
                                  ['opt', i, j, k, q, 'fnid', '$undefined']]
                         for a in range(len(op.fn.args)):
                             muts += [['opt', i, j, k, q, 'arg_tag', a, m.named_pattern_cnt + 3], ['opt', i, j, k, q, 'arg_clear', a]]
-    return muts
+    seen, uniq = set(), []
+    for mu in muts:
+        if repr(mu) not in seen:
+            seen.add(repr(mu))
+            uniq.append(mu)
+    return uniq
 
 
 def apply_mutation(m, mut, bny):
@@ -164,6 +228,11 @@ def apply_mutation(m, mut, bny):
         m.named_pattern_cnt = mut[1]
     elif k == 'drop_node':
         del m.nodes[mut[1]]
+    elif k == 'add_node':
+        nd = bny.Node()
+        nd.id, nd.parent = mut[1], mut[2]
+        nd.rule_name, nd.v_edges, nd.p_edges, nd.sign_cons = ['#extra'], [], [], []
+        m.nodes = list(m.nodes) + [nd]
     elif k == 'swap_nodes':
         m.nodes[mut[1]], m.nodes[mut[2]] = m.nodes[mut[2]], m.nodes[mut[1]]
     elif k == 'node':
@@ -221,10 +290,38 @@ def apply_mutation(m, mut, bny):
     return m
 
 
+def wire_elements(wire):
+    """offsets at which the top-level TLV elements of an encoded model start (plus the end)"""
+    def num(off):
+        b = wire[off]
+        if b < 253:
+            return b, off + 1
+        w = {253: 2, 254: 4, 255: 8}[b]
+        return int.from_bytes(wire[off + 1:off + 1 + w], 'big'), off + 1 + w
+    offs, off = [], 0
+    while off < len(wire):
+        offs.append(off)
+        _, off = num(off)
+        ln, off = num(off)
+        off += ln
+    return offs + [len(wire)]
+
+
+def apply_wire_mutation(wire, mut):
+    if mut[0] != 'wire':
+        return wire
+    if mut[1] == 'drop_last':
+        offs = wire_elements(wire)
+        return wire[:offs[max(0, len(offs) - 1 - mut[2])]]
+    if mut[1] == 'cut':
+        return wire[:max(0, len(wire) - mut[2])]
+    return wire + bytes.fromhex(mut[2])
+
+
 def doc_rules_broken(m, bny):
     """the six sanity rules of binary-format.rst on the part reachable from the start node
     (independent transcription; returns the name of a broken rule or None)"""
-    if m.version is None or not (bny.MIN_SUPPORTED_VERSION <= m.version <= bny.VERSION):
+    if m.version is None or m.version != doc_version():
         return 'version'
     nodes = m.nodes or []
     if m.start_id is None:
@@ -264,7 +361,7 @@ def _compile(schema):
 
 
 def cases(rng, tier):
-    n_sch = 30 if tier == 'quick' else 45
+    n_sch = 30 if tier == 'quick' else 45      # thorough enumerates EVERY position / corruption of each schema (~700 cases per schema)
     per_inj = 6 if tier == 'quick' else None
     per_mut = 14 if tier == 'quick' else None
     fns = L.user_fns(L.FN_NAMES)
@@ -277,13 +374,21 @@ def cases(rng, tier):
             # one of each kind first, then random positions
             rng.shuffle(inj)
             seen, pick = set(), []
-            for kd, s in inj:
+            for kd, s, i in inj:
                 if kd not in seen:
                     seen.add(kd)
-                    pick.append((kd, s))
-            inj = pick[:per_inj] + inj[:2]
-        for kd, s in inj:
-            yield {'kind': 'schema', 'schema': s, 'inject': kd}
+                    pick.append((kd, s, i))
+            # a rule defined several times: errors placed in a definition that is not the last one (two kinds per schema)
+            early = set(redefined_targets(schema))
+            seen, redef = set(), []
+            for kd, s, i in inj:
+                if i in early and kd not in seen:
+                    seen.add(kd)
+                    redef.append((kd, s, i))
+            inj = pick[:per_inj] + inj[:2] + redef[:2]
+        early_defs = set(redefined_targets(schema))
+        for kd, s, i in inj:
+            yield {'kind': 'schema', 'schema': s, 'inject': kd, 'early_def': i in early_defs}
         if spec.static_errors():
             continue
         try:
@@ -295,14 +400,28 @@ def cases(rng, tier):
             rng.shuffle(muts)
             kinds, pick = set(), []
             for mu in muts:
-                kd = (mu[0], mu[2] if mu[0] == 'node' else (mu[3] if mu[0] in ('ve', 'pe') else (mu[5] if mu[0] == 'opt' else '')))
+                kd = (mu[0], mu[2] if mu[0] == 'node' else (mu[3] if mu[0] in ('ve', 'pe') else (mu[5] if mu[0] == 'opt' else mu[1] if mu[0] == 'wire' else '')))
                 if kd not in kinds:
                     kinds.add(kd)
                     pick.append(mu)
-            muts = pick[:per_mut] + muts[:4]
+            # one structural corruption in every kind of node (root, leaf, only pattern edges, only value edges, both);
+            # the root always gets one (its id is 0 and its parent absent: the places a truthiness test goes wrong)
+            classes, strat = set(), []
+            for mu in muts:
+                if mu[0] in ('node', 've', 'pe') and (mu[2] if mu[0] == 'node' else mu[3]) in ('id', 'parent', 'dest', 'sign_add'):
+                    cl = node_class(m, mu[1])
+                    if cl not in classes:
+                        classes.add(cl)
+                        strat.append(mu)
+            muts = pick[:per_mut] + muts[:3] + strat
         names = L.gen_names(rng, schema, spec, 5 if tier == 'quick' else 8)
         for mu in muts:
             yield {'kind': 'model', 'schema': schema, 'mut': mu, 'names': names, 'fns': rng.choice([L.FN_NAMES, L.FN_NAMES, ['$eq']])}
+
+
+    # more well-formed schemas (compile + loader only: cheap) for the positive clause
+    for _ in range(70 if tier == 'quick' else 400):
+        yield {'kind': 'schema', 'schema': L.gen_schema(rng), 'inject': None}
 
 
 def shrink(case):
@@ -317,6 +436,9 @@ def shrink(case):
 
 
 # ---------------------------------------------------------------------------------- implementation
+_last_compiled = []
+
+
 def run_impl(case):
     Component, Name, compile_lvs, Checker, SemanticError, LvsModelError, DFN, bny = L.mods()
     fns = L.user_fns(case.get('fns', L.FN_NAMES))
@@ -349,12 +471,16 @@ def run_impl(case):
         except Exception as e:          # noqa
             res['reload'] = type(e).__name__
         return res
-    # model-level
-    model = compile_lvs(L.pp(schema))
+    # model-level (the compiled model of one schema is corrupted many times: building the lark parser dominates, so the
+    # last compilation is kept; apply_mutation works on a deep copy)
+    text = L.pp(schema)
+    if _last_compiled[:1] != [text]:
+        _last_compiled[:] = [text, compile_lvs(text)]
+    model = _last_compiled[1]
     mutated = apply_mutation(model, case['mut'], bny)
     res = {'token': None, 'broken': None}
     try:
-        wire = bytes(mutated.encode())
+        wire = apply_wire_mutation(bytes(mutated.encode()), case['mut'])
         parsed = bny.LvsModel.parse(wire)
     except Exception as e:              # noqa
         res['load'] = 'unencodable:' + type(e).__name__
@@ -384,6 +510,10 @@ def model_line(case, impl):
         return 'C13 csanity ' + L.enc_schema(case['schema'])
     tok = impl.get('token')
     if tok is None:
+        return None
+    if case['mut'][:2] == ['add_node', None] or case['mut'] == ['wire', 'append', '6300']:
+        # an UNREACHABLE node without NodeId: the loader raises TypeError (top_order sorts None with ints), the Lean loader
+        # ignores unreachable nodes; outside the documented rules as the oracle reads them (reachable part) -> oracle only
         return None
     names = [L.name_bytes(nm) for nm in case['names']]
     return 'C13 full %s %s %s' % (tok, L.enc_env(case.get('fns', L.FN_NAMES)), '/'.join(L.enc_name(n) for n in names))
@@ -463,12 +593,14 @@ def nontrivial(case, impl):
 def tags(case, impl):
     if case['kind'] == 'schema':
         t = ['schema:' + (case['inject'] or 'well-formed')]
+        if case.get('early_def'):
+            t.append('error-in-earlier-definition-of-redefined-rule:' + case['inject'])
         t.append('outcome:' + (impl['compile'] if impl['compile'] != 'ok' else impl.get('checker', '?')))
         if impl['may_self_sign']:
             t.append('may-self-sign(no demand)')
         return t
     mu = case['mut']
-    kd = mu[0] + ':' + str(mu[2] if mu[0] == 'node' else (mu[3] if mu[0] in ('ve', 'pe') else (mu[5] if mu[0] == 'opt' else '')))
+    kd = mu[0] + ':' + str(mu[2] if mu[0] == 'node' else (mu[3] if mu[0] in ('ve', 'pe') else (mu[5] if mu[0] == 'opt' else mu[1] if mu[0] == 'wire' else '')))
     t = ['mut:' + kd, 'load:' + impl['load']]
     if impl.get('broken'):
         t.append('breaks:' + impl['broken'])
